@@ -85,11 +85,81 @@ def normalise(block: list[str], name: str, key: str, nba_alias: bool) -> list[st
     return out
 
 
+FRAME_HEADER = """From Coq Require Import List String Ascii Bool.
+From Verif Require Import Wire Core FieldEmitText FrameEmit K105bProofs.
+From VerifGen Require Import K105b.
+Import ListNotations.
+Open Scope string_scope.
+Definition okf (c: (list (string * option string) * option string * bool * bool) * (list string * list string)) : bool :=
+  match c with
+  | ((ff, discr, nba, forbid), (lit, ls)) =>
+      lines_eqb (flat_map frstmt_text (frame_try forbid (is_nil ff))) ls &&
+      (negb forbid || (subset lit (allowed_keys_k ff discr nba) && subset (allowed_keys_k ff discr nba) lit))
+  end.
+"""
+HANDLER_LINES = ["    except AttributeError:", "        if not isinstance(d, dict):", None, "        else:", "            raise"]
+
+
+def frame_of(src: str):
+    """-> (normalised lines of the try body with the blocks collapsed to BLOCKS, allowed-keys literal | None) or None"""
+    import ast
+    lines = src.splitlines()
+    try:
+        t = next(i for i, ln in enumerate(lines) if ln == "    try:")
+        e = next(i for i, ln in enumerate(lines) if ln == "    except AttributeError:")
+    except StopIteration:
+        return None
+    h = lines[e:e + 5]
+    if len(h) != 5 or any(w is not None and w != g for w, g in zip(HANDLER_LINES, h)) or \
+            not re.match(r"^            raise ValueError\('Argument for \S+ method should be a dict instance'\) from None$", h[2]):
+        return None
+    if not (e + 5 < len(lines) and lines[e + 5].startswith("    return cls")):
+        return None
+    out, lit, in_blocks = [], None, False
+    for ln in lines[t + 1:e]:
+        ln = ln[8:]
+        if START.match(ln):
+            in_blocks = True
+        if in_blocks:
+            continue
+        if ln == "kwargs = {}":
+            continue                      # bookkeeping of the constructor call, not a frame statement
+        m = re.match(r"^forbidden_keys = d_keys - (.+)$", ln)
+        if m:
+            try:
+                v = eval(m.group(1), {"set": set})
+            except Exception:  # noqa: BLE001
+                return None
+            if not isinstance(v, set) or not all(isinstance(x, str) for x in v):
+                return None
+            lit = sorted(v)
+            ln = "forbidden_keys = d_keys - SET"
+        out.append(ln)
+    out.append("BLOCKS")
+    return out, lit
+
+
 class Collector:
     def __init__(self):
         self.cases = {}        # term -> label
         self.bad = []
         self.programs = 0
+        self.frames = {}
+
+    def add_frame(self, schema: dict, src: str):
+        fr = frame_of(src)
+        if fr is None:
+            self.bad.append(f"{schema['cls']}: the try / except AttributeError frame was not recognised")
+            return
+        lines, lit = fr
+        dk = list(schema.get("discr_keys") or [])
+        if len(dk) > 1:
+            return
+        b = lambda x: "true" if x else "false"  # noqa: E731
+        ff = "; ".join(f"({coq_str(f['name'])}, {('Some ' + coq_str(f['alias'])) if f['alias'] else 'None'})" for f in schema["fields"])
+        term = (f"(([{ff}], {('Some ' + coq_str(dk[0])) if dk else 'None'}, {b(schema['allow_nba'])}, {b(schema['forbid'])}), "
+                f"([{'; '.join(coq_str(x) for x in (lit or []))}], [{'; '.join(coq_str(x) for x in lines)}]))")
+        self.frames.setdefault(term, f"{schema['cls']}: forbid={schema['forbid']} nba={schema['allow_nba']} allowed={lit} frame={' / '.join(lines)}"[:300])
 
     def add_program(self, cls_name: str, src: str, metas: list[dict]):
         self.programs += 1
@@ -148,4 +218,43 @@ class Collector:
         ctx.correspondence(name, len(terms), len(bad), det)
         if bad:
             ctx.not_shown("correspondence " + name, f"{len(bad)} of {len(terms)} field blocks differ from K105a.fblock: {det}")
+        ctx.count(n=len(terms))
+        self.run_frames(ctx)
+
+    def run_frames(self, ctx: vlib.Ctx):
+        name = "c05_frame_text"
+        if not ctx.kernel_report.get("K105b", {}).get("ok", False):
+            ctx.correspondence(name, len(self.frames), -1, str(ctx.kernel_report.get("K105b", {}).get("error")))
+            ctx.not_shown("kernel K105b", str(ctx.kernel_report.get("K105b", {}).get("error")))
+            return
+        if not self.frames:
+            ctx.correspondence(name, 0, -1, "no frame was captured")
+            ctx.not_shown("correspondence " + name, "no frame was captured")
+            return
+        br = vlib.coq_make(["theories/K105bProofs.vo", "theories/FieldEmitText.vo", "theories/Wire.vo"])
+        if not br.ok:
+            ctx.correspondence(name, len(self.frames), -1, "model does not build: " + (br.error or ""))
+            ctx.not_shown("correspondence " + name, "model does not build: " + (br.error or ""))
+            return
+        terms = list(self.frames)
+        labels = [self.frames[t] for t in terms]
+        files, shard = [], 150
+        for si in range(0, len(terms), shard):
+            txt = FRAME_HEADER + ("Definition cases : list ((list (string * option string) * option string * bool * bool) * "
+                                  "(list string * list string)) :=\n  [") + ";\n   ".join(terms[si:si + shard]) + \
+                "].\nEval vm_compute in (bad_idx okf cases).\n"
+            files.append((f"{name}_{si // shard}", txt))
+        res = vlib.coq_eval_many(files, timeout=900, jobs=4)
+        bad = []
+        for n, (ok, out) in enumerate(res):
+            idx = vlib.parse_nat_list(out) if ok else None
+            if idx is None:
+                ctx.correspondence(name, len(terms), -1, out[-1500:])
+                ctx.not_shown("correspondence " + name, out[-1500:])
+                return
+            bad.extend(n * shard + i for i in idx)
+        det = "; ".join(labels[i] for i in bad[:5])
+        ctx.correspondence(name, len(terms), len(bad), det)
+        if bad:
+            ctx.not_shown("correspondence " + name, f"{len(bad)} of {len(terms)} frames differ from K105b: {det}")
         ctx.count(n=len(terms))
